@@ -69,7 +69,7 @@ PROPS = {
     ),
     "C14": dict(
         level="exploration",
-        technique="bounded-exhaustive enumeration of path shapes x prior trees (all node kinds), component names over a dotted-name alphabet (., .., ..., x.., ..x, ...), entry multisets, tree shapes, the listing and removal families repeated with every getdents64 record's type erased to DT_UNKNOWN (syscall seam) and with forged records, capacity x size grids for read_to_end, source-handle positions for copy, and explicit-state BFS over operation sequences and over OpenOptions setter histories on the real fs functions; std::fs as independent observer / differential reference",
+        technique="bounded-exhaustive enumeration of path shapes x prior trees (all node kinds), component names over a dotted-name alphabet (., .., ..., x.., ..x, ...), a concurrent creator acting before each mkdir (seam), reads of files whose reported size differs from their content (procfs, sysfs, forged st_size), entry multisets, tree shapes, the listing and removal families repeated with every getdents64 record's type erased to DT_UNKNOWN (syscall seam) and with forged records, capacity x size grids for read_to_end, source-handle positions for copy, and explicit-state BFS over operation sequences and over OpenOptions setter histories on the real fs functions; std::fs as independent observer / differential reference",
         steps=[_s("h-fs", "mkdirall"), _s("h-fs", "rwcopy"), _s("h-fs", "readdir"), _s("h-fs", "rmall"), _s("h-fs", "seq")],
         assumptions=["Err results are not judged except where the statement fixes them (write/copy onto a directory) and, for dotted component names, where std::fs::create_dir_all succeeds on a twin directory",
                      "runs as root: permission failures, ENOSPC, concurrent modification not covered",
@@ -110,9 +110,9 @@ PROPS = {
                _s("h-uring", "spin", bin="h-uring-spin", profile="ltofat-abort", name="straight-line-program-ltofat-abort"),
                _s("h-ring-wm", None, name="weak-memory-handover")],
         assumptions=["kernel side simulated at call granularity (consume 1/all, post 1/all); the index array is the identity as set up by setup_io_uring",
-                     "weak-memory step: the ring hand-over methods (needs_wakeup, get_next_sqe_slot, flush_submission_queue, get_next_cqe) are cut verbatim out of rusl's io_uring.rs by item boundaries (a missing item fails the build) and compiled against the instrumented atomics of engine E1; application thread + a poller thread following the kernel's io_sq_thread protocol; every schedule within P 2-3 and W 2 stale reads (store buffering), SeqCst fences modelled as AcqRel RMWs of one common word; every program with the kernel-owned other bits of the SQ flags word preset to each of {none, CQ_OVERFLOW, TASKRUN, both} and one with a third thread toggling CQ_OVERFLOW; truth table of needs_wakeup over the low 3 bits of the word",
+                     "weak-memory step: the ring hand-over methods (needs_wakeup, get_next_sqe_slot, flush_submission_queue, get_next_cqe) are cut verbatim out of rusl's io_uring.rs by item boundaries (a missing item fails the build) and compiled against the instrumented atomics of engine E1; application thread + a poller thread following the kernel's io_sq_thread protocol; every schedule within P 2-3 and W 2 stale reads (store buffering), SeqCst fences modelled as AcqRel RMWs of one common word; every program with the kernel-owned other bits of the SQ flags word preset to each of {none, CQ_OVERFLOW, TASKRUN, both} and one with a third thread toggling CQ_OVERFLOW; truth table of needs_wakeup over the low 3 bits of the word; full completion rings of 1 and 2 with a kernel thread posting into a slot the moment the head releases it, slot copies tracked for data races, every completion reaped exactly once in order",
                      "polling-reaper step (fat-LTO build): an application that busy-polls get_next_cqe / get_next_sqe_slot with no system call in the loop must observe an asynchronous completion / freed slot: binds 'the ring words are read with real atomics' to what the optimiser may do (compiler-dependent, this toolchain only)",
-                     "real-rings step: rings made by the real setup_io_uring for every entry-size flag combination (with and without SQPOLL), sizes 1..8, every start slot x every sequence of batch lengths, NOP entries against the real kernel: binds the model's set-up assumption (identity index array, entry sizes) to the code",
+                     "real-rings step: rings made by the real setup_io_uring for every entry-size flag combination (with and without SQPOLL), sizes 1..8 and CLAMPed oversize requests (slot addresses checked against the mapped array over two full wraps), every start slot x every sequence of batch lengths, NOP entries against the real kernel: binds the model's set-up assumption (identity index array, entry sizes) to the code",
                      "bounded by 2*entries+6 application operations per state space; ring sizes 1,2,4 (thorough: 8)"],
     ),
 
@@ -136,7 +136,7 @@ PROPS = {
     ),
     "C12": dict(
         level="fault_enumeration",
-        technique="fault enumeration over the syscall seam: every descriptor-creating scenario re-run with each of its system calls failing or answering a non-error deviation (each errno class; all pairs in the thorough tier), parent and forked child, from three descriptor-table start states, with argument-domain extremes, in builds with and without alloc; descriptors the kernel installs through recvmsg (SCM_RIGHTS x1..3, with and without a preceding SCM_CREDENTIALS message, four control-buffer sizes) tracked from the kernel-filled control area; shadow descriptor/mapping table cross-checked with /proc/self/fd",
+        technique="fault enumeration over the syscall seam: every descriptor-creating scenario re-run with each of its system calls failing or answering a non-error deviation (each errno class; all pairs in the thorough tier), parent and forked child, from three descriptor-table start states, with argument-domain extremes, in builds with and without alloc; descriptors the kernel installs through recvmsg (SCM_RIGHTS x1..3, with and without a preceding SCM_CREDENTIALS message, four control-buffer sizes) tracked from the kernel-filled control area; accept under every peer address kind and with the kernel-written address length overwritten; shadow descriptor/mapping table cross-checked with /proc/self/fd",
         steps=[_s("h-fd", "c12"),
                _s("h-fd-noalloc", "c12-noalloc", bin="h-fd-noalloc", cwd="/verif/engines/h-fd/noalloc", name="c12-noalloc")],
         assumptions=["a descriptor named by Stdio::RawFd is only lent: Command::spawn and the no-alloc process::spawn must leave it open in the parent, referring to the same file with the same status and descriptor flags, on every path (Ok, Err, every injected deviation); closing it is reported as closes-foreign-fd; the harness closes the RawFds it created after judging; ownership is transferred only by File::from_raw_fd / OwnedFd::from_raw",
